@@ -92,6 +92,11 @@ class Hist:
             self.keys = rng.sample(KEYS, min(n, len(KEYS)))
         if rng.random() < 0.08:
             self.keys.append(rng.choice([b"L" * 128, b"M" * 127, b"N" * 129]))
+        if rng.random() < 0.07:
+            # neighbours in key order that share a long prefix (the delta codec of the compressed stream
+            # writes the shared length as a varint: 127 / 128 / 255 / 256 are where its size changes)
+            n = rng.choice([126, 127, 128, 129, 130, 200, 255, 256, 300])
+            self.keys += [b"P" * n + s for s in (b"", b"a", b"b\x00", b"zz")][:rng.randint(2, 4)]
         if rng.random() < float(os.environ.get("VERIF_P_EMPTYKEY", "0.12")):
             # the empty key is a legal key (only nil is refused) and sorts first
             self.keys.append(b"")
@@ -1181,7 +1186,11 @@ def gen_codec(seed, n, start_id=0):
         hid = "d%d" % (start_id + i)
         lines = ["new " + hid]
         for _ in range(60):
-            kind = r.choice(["makenode", "makenode", "makelegacy", "fastnode", "decbytes", "decvarint", "decuvarint", "rootval"])
+            kind = r.choice(["makenode", "makenode", "makelegacy", "fastnode", "decbytes", "decvarint", "decuvarint", "rootval", "lrootval"])
+            if kind == "lrootval":
+                first = r.choice([0x73, 0x73, 0x6e, 0x72, 0x66, 0x6d, 0x00, 0xff, r.randrange(256)])
+                lines.append("lrootval %s" % enc(bytes([first]) + _rb(r, 31, 31)))
+                continue
             x = r.random()
             if kind == "makenode":
                 b = _enc_node(r)
